@@ -1,6 +1,8 @@
 """Shared configuration lattices: ellipsoids, projections, angle input types, lattice builders."""
 import math
 
+import numpy as np
+
 import geodepy.constants as gc
 import geodepy.angles as ga
 from gpmc.core import seed_phase
@@ -67,6 +69,8 @@ def cm_of(prj, zone):
 
 # ---- angle input types ----------------------------------------------------------------------
 INTYPES = ['float', 'deca', 'hpa', 'gona', 'dms', 'ddm']
+# other legal forms of a float: numpy float64 scalars (a float subclass) as produced by array indexing / numpy arithmetic
+NUMFORMS = ['np64', 'np0d']
 
 
 def as_type(dec, kind):
@@ -83,7 +87,26 @@ def as_type(dec, kind):
         return ga.dec2dms(dec)
     if kind == 'ddm':
         return ga.dec2ddm(dec)
+    if kind == 'np64':
+        return _NumObj(np.float64(dec))
+    if kind == 'np0d':
+        # an element of a float array that went through arithmetic (0-d array scalar)
+        return _NumObj(np.array([dec], dtype=float)[0] * np.float64(1.0))
     raise ValueError(kind)
+
+
+class _NumObj(object):
+    """wrapper used by the check modules: .value is what is passed to the library, .dec() its decimal-degree value"""
+
+    def __init__(self, value):
+        self.value = value
+
+    def dec(self):
+        return float(self.value)
+
+
+def unwrap(x):
+    return x.value if isinstance(x, _NumObj) else x
 
 
 # ---- lattice helpers ------------------------------------------------------------------------
